@@ -219,6 +219,77 @@ def cli_roundtrip(seed_tps):
     return dict(n=n, viol=viol, late=sum(1 for v in viol if v[0] == "late"), states={("cli", seed, tps)})
 
 
+def run_vs_trace(job):
+    """(d) `run` against `gentrace` + `run -w`, both through the real CLI and the real run_simulator loop: the arrivals the
+    simulator receives tick by tick (canonical pipeline contents) must be the same. Tick rates are powers of two (every
+    grid point exact, so the recorded late-by-one finding cannot interfere); durations are NOT whole numbers of ticks;
+    the generator is busy (an emission almost every tick), so the last tick of the run matters."""
+    seed, tps, ticks = job
+    from eudoxia.__main__ import main as cli
+    from eudoxia.workload.workload import WorkloadTrace
+    d = tempfile.mkdtemp(prefix="verif_c13d_")
+    viol = []
+    n = 0
+    logs = {}
+    o_gen, o_tr = WorkloadGenerator.run_one_tick, WorkloadTrace.run_one_tick
+    cur = []
+
+    def canon(p):
+        ops = list(p.values.node_lookup.values())
+        return (p.priority.name, tuple((tuple(sorted(ops.index(q) for q in o.parents)), tuple((sg.baseline_cpu_seconds, sg.storage_read_gb, sg.memory_gb) for sg in o.get_segments())) for o in ops))
+
+    def w_gen(self):
+        out = o_gen(self)
+        cur.append([canon(p) for p in out])
+        return out
+
+    def w_tr(self):
+        out = o_tr(self)
+        cur.append([canon(p) for p in out])
+        return out
+    try:
+        dur = ticks / tps
+        params = dict(duration=dur, ticks_per_second=tps, random_seed=seed, waiting_seconds_mean=0.6 / tps, num_pipelines=1, num_operators=1,
+                      scheduler_algo="naive", num_pools=1, cpus_per_pool=4, ram_gb_per_pool=64)
+        toml = os.path.join(d, "p.toml")
+        with open(toml, "w") as f:
+            for k, v in params.items():
+                f.write(f"{k} = {json.dumps(v)}\n")
+        out = os.path.join(d, "t.csv")
+        old = sys.stdout
+        sys.stdout = io.StringIO()
+        try:
+            cli(["gentrace", toml, out])
+            WorkloadGenerator.run_one_tick, WorkloadTrace.run_one_tick = w_gen, w_tr
+            cur.clear()
+            cli(["run", toml])
+            logs["run"] = [list(x) for x in cur]
+            cur.clear()
+            cli(["run", toml, "-w", out])
+            logs["trace"] = [list(x) for x in cur]
+        finally:
+            sys.stdout = old
+            WorkloadGenerator.run_one_tick, WorkloadTrace.run_one_tick = o_gen, o_tr
+        a, b = logs["run"], logs["trace"]
+        n = sum(len(x) for x in a)
+        sc = dict(seed=seed, tps=tps, duration=dur, what="run-vs-gentrace+run-w")
+        if len(a) != len(b):
+            viol.append(("run-length-differs", sc, f"duration {dur}s at {tps}/s: `run` asked its workload for {len(a)} ticks, `run -w` for {len(b)}"))
+        for t in range(max(len(a), len(b))):
+            xa = a[t] if t < len(a) else []
+            xb = b[t] if t < len(b) else []
+            if xa != xb:
+                viol.append(("arrivals-differ", sc, f"duration {dur}s at {tps}/s, seed {seed}: tick {t}: `run` received {len(xa)} pipeline(s), `gentrace` + `run -w` received {len(xb)}"
+                             + ("" if len(xa) != len(xb) else " with different contents")))
+                break
+    except SystemExit as e:
+        viol.append(("cli-exit", dict(seed=seed, tps=tps, ticks=ticks), f"CLI exited with {e.code}"))
+    finally:
+        WorkloadGenerator.run_one_tick, WorkloadTrace.run_one_tick = o_gen, o_tr
+        shutil.rmtree(d, ignore_errors=True)
+    return dict(n=n, viol=viol, late=0, states={("rvt", seed, tps, ticks)})
+
+
 def main(tier, seed):
     rep = Report("C13", tier, seed)
     q = tier == "quick"
@@ -227,7 +298,7 @@ def main(tier, seed):
     rep.cov["rule"] = (f"(a) gentrace round trip: for each tick rate in {tpss} and EVERY tick t in [0,{N}] (plus windows of 2000 ticks at 10^6 and 10^7) a pipeline emitted at t is written by the real "
                        "WorkloadTraceGenerator+CSVWorkloadWriter and replayed by the real CSVWorkloadReader+WorkloadTrace: must come out in tick t; "
                        "(b) hand-written decimal arrivals on and off the grid (1/4,1/2,3/4 of a tick), 0-3 pipelines per value, gaps, arrivals beyond the end: exact tick = ceil(Decimal(text)*tps); "
-                       "(c) the real `eudoxia gentrace` CLI for seeds/tick rates against a fresh generator run. states = distinct (tick rate, arrival) points; non-trivial = points that are not exactly representable in binary")
+                       "(c) the real `eudoxia gentrace` CLI for seeds/tick rates against a fresh generator run; (d) `eudoxia run` against `eudoxia gentrace` + `eudoxia run -w` through the real run_simulator loop for durations of k+1/4, k+1/2, k+3/4, k+15/16 ticks at power-of-two tick rates with a generator that emits almost every tick: same arrivals in every tick, same run length. states = distinct (tick rate, arrival) points; non-trivial = points that are not exactly representable in binary")
     jobs = []
     step = 2000
     for tps in tpss:
@@ -244,7 +315,9 @@ def main(tier, seed):
     res2 = pmap(decimals, djobs, chunks=1)
     cjobs = [(s, tps, dur) for s in range(seed, seed + (3 if q else 12)) for tps, dur in ((10, 30), (100, 8), (1000, 1.5), (7, 40))]
     res3 = pmap(cli_roundtrip, cjobs, chunks=1)
-    for name, rr in (("roundtrip", res), ("decimal", res2), ("gentrace-cli", res3)):
+    rjobs = [(s, tps, k + fr_) for s in range(seed, seed + (4 if q else 16)) for tps in (1, 2, 4, 8, 64) for k in (6, 7, 22, 23) for fr_ in (0.25, 0.5, 0.75, 0.9375)]
+    res4 = pmap(run_vs_trace, rjobs, chunks=1)
+    for name, rr in (("roundtrip", res), ("decimal", res2), ("gentrace-cli", res3), ("run-vs-trace", res4)):
         tot = 0
         late = 0
         for r in rr:
@@ -268,6 +341,11 @@ def main(tier, seed):
 def replay(rec):
     sc = rec["scenario"]
     tps = sc["tps"]
+    if sc.get("what") == "run-vs-gentrace+run-w":
+        r = run_vs_trace((sc["seed"], tps, sc["duration"] * tps))
+        for kind, _, detail in r["viol"]:
+            print(kind, detail)
+        return 1 if r["viol"] else 0
     text = tf.HEADER + "\n" + tf.row_line("p1", sc["arrival_text"], "BATCH_PIPELINE", "op1", "") + "\n"
     want = sc.get("exact_tick", tf.exact_tick(sc["arrival_text"], tps))
     deliv = tf.replay_ticks(text, tps, want + 4)
